@@ -232,6 +232,12 @@ func Drive(p Prop, tier string, opt Options) int {
 	work := filepath.Join(Root(), ".work", p.ID()+"-"+tier)
 	os.RemoveAll(work)
 	os.MkdirAll(work, 0o755)
+	// full histories of violating cases of the previous run of this check
+	if old, _ := filepath.Glob(filepath.Join(Root(), "replays", "events", p.ID()+"-"+tier+"-*")); len(old) > 0 {
+		for _, f := range old {
+			os.Remove(f)
+		}
+	}
 	if opt.Parallel <= 0 {
 		opt.Parallel = 16
 	}
@@ -643,7 +649,11 @@ func finish(p Prop, tier string, seed int64, a *agg, start time.Time, work strin
 	if len(unlisted) > 0 {
 		for _, u := range unlisted {
 			fmt.Printf("VIOLATION property=%s replay=%s\n", p.ID(), u.path)
-			fmt.Printf("  class=%s identity=%s\n  %s\n", u.v.Class, u.v.Identity, u.v.Detail)
+			caseIdx := any("-")
+			if m, ok := u.v.Case.(map[string]any); ok {
+				caseIdx = m["index"]
+			}
+			fmt.Printf("  class=%s identity=%s case=%v\n  %s\n", u.v.Class, u.v.Identity, caseIdx, u.v.Detail)
 		}
 		return 1
 	}
